@@ -38,11 +38,18 @@ pub struct AnalyzeIter<'a> {
 
 impl<'a> AnalyzeIter<'a> {
     pub(crate) fn new(pattern: &'a [char], matcher: ReMatcher<'a>) -> Self {
+        // a literal pattern (flag q) has no groups, and its text must not be
+        // scanned for parentheses
+        let nesting_table = if matcher.program.flags.is_literal() {
+            HashMap::new()
+        } else {
+            Self::compute_nesting_table(pattern)
+        };
         AnalyzeIter {
             matcher,
             next_substring: None,
             prev_end: Some(0),
-            nesting_table: Self::compute_nesting_table(pattern),
+            nesting_table,
             skip: false,
         }
     }
